@@ -25,6 +25,14 @@ static struct vf_file vf_files[VF_NFILES];
 static struct vf_handle vf_h[VF_NH];
 static int vf_open_count, vf_fopen_calls, vf_fopen_fail; /* vf_fopen_fail: next fopen returns NULL */
 static int vf_bad_use;                    /* use of a closed/invalid handle */
+static int vf_is_mine(VF* f) { for (int i = 0; i < VF_NH; i++) if ((void*)f == (void*)&vf_h[i]) return 1; return 0; }
+#ifdef REAL
+/* the real code also writes its log messages to stderr through the same libc entry points: pass those through */
+uint64_t __real_fwrite(uint8_t*, uint64_t, uint64_t, VF*); uint32_t __real_fputc(uint32_t, VF*); uint32_t __real_putc(uint32_t, VF*);
+#define VF_PASS(call) if (!vf_is_mine(f)) return call
+#else
+#define VF_PASS(call)
+#endif
 static struct vf_handle* vf_get(VF* f) {
   for (int i = 0; i < VF_NH; i++) if ((void*)f == (void*)&vf_h[i]) { if (!vf_h[i].open) vf_bad_use = 1; return &vf_h[i]; }
   vf_bad_use = 1; return &vf_h[0];
@@ -46,12 +54,13 @@ uint64_t VFN(fread)(uint8_t* dst, uint64_t sz, uint64_t n, VF* f) {
   for (uint64_t i = 0; i < got; i++) dst[i] = F->data[h->pos + i];
   h->pos += got; if (got < want) h->eof = 1; return sz ? got / sz : 0; }
 uint64_t VFN(fwrite)(uint8_t* src, uint64_t sz, uint64_t n, VF* f) {
+  VF_PASS(__real_fwrite(src, sz, n, f));
   struct vf_handle* h = vf_get(f); struct vf_file* F = &vf_files[h->file];
   uint64_t want = sz * n; __CPROVER_assert(h->pos + want <= VF_CAP, "file model capacity");
   for (uint64_t i = 0; i < want; i++) F->data[h->pos + i] = src[i];
   h->pos += want; if (h->pos > F->len) F->len = h->pos; return n; }
-uint32_t VFN(putc)(uint32_t c, VF* f) { uint8_t b = (uint8_t)c; VFN(fwrite)(&b, 1, 1, f); return c & 0xff; }
-uint32_t VFN(fputc)(uint32_t c, VF* f) { uint8_t b = (uint8_t)c; VFN(fwrite)(&b, 1, 1, f); return c & 0xff; }
+uint32_t VFN(putc)(uint32_t c, VF* f) { VF_PASS(__real_putc(c, f)); uint8_t b = (uint8_t)c; VFN(fwrite)(&b, 1, 1, f); return c & 0xff; }
+uint32_t VFN(fputc)(uint32_t c, VF* f) { VF_PASS(__real_fputc(c, f)); uint8_t b = (uint8_t)c; VFN(fwrite)(&b, 1, 1, f); return c & 0xff; }
 uint32_t VFN(feof)(VF* f) { return (uint32_t)vf_get(f)->eof; }
 uint32_t VFN(ferror)(VF* f) { return (uint32_t)vf_get(f)->err; }
 uint64_t VFN(ftell)(VF* f) { return vf_get(f)->pos; }
